@@ -29,7 +29,7 @@ PROTECTED_PAYLOAD = ["cast R", "call R 3 -", "kspawn 55", "kjoin 1 1 55", "kenum
 WRONG = ["E", "k:1:I", "k:2:I", "k:0:I:g1", "k:0:I:g2", "k:0:I:g3", "k:0:I:g4", "k:0:I:g5", "raw:0", "raw:1",
          "raw:2", "k:0:12345", "k:0:0"]
 AUTH_NOISE = ["name 1 2 3", "name 100 2 3", "name 4 101 0", "sstatus 0", "sstatus 2", "sstatus 3", "sstatus 4", "cstatus 1",
-              "cstatus 0", "schal 7 8 99", "cchal 5 k:0:I", "sack k:0:I", "empty", "cchal 5 k:1:I", "sack raw:1", "sack E"]
+              "cstatus 0", "schal 7 8 99", "cchal 5 k:0:I", "sack k:0:I", "empty", "emptyu", "cchal 5 k:1:I", "sack raw:1", "sack E"]
 
 
 def honest(server, rng):
@@ -77,6 +77,12 @@ def gen_live(chk, n):
             for j in (0, 3, 4, 1):
                 out.append((server, 0, base[:pos] + [f"malformed {j}"] + base[pos:] + ["cast R", "kspawn 55", "kenum 9 9"], 0, False))
         out.append((server, 0, base + ["cast R", "malformed 3", "cast R", "kspawn 55"], 0, False))
+        # decodable but empty envelopes: an authentication message with its oneof unset / with only an unknown field
+        # closes the session (unexpected => Close); empty node / control envelopes are inert
+        for pos in range(len(base)):
+            for e in ("empty", "emptyu"):
+                out.append((server, 0, base[:pos] + [e] + base[pos:] + ["cast R", "kspawn 55", "kenum 9 9"], 0, False))
+                out.append((server, 0, base[:pos] + ["mnone", "knone", "nempty", e] + base[pos:] + ["cast R"], 0, True))
     # a half-open claimant (the session under test: it only claims the name of peer 1, never proves the cookie) is
     # parked BEFORE the honest peer 1 completes its own handshake on another connection; claimant nonce 0 / 1 / max,
     # claimant inbound and outbound, honest connection inbound (nonce 0 / 1 / 7777 / max) and outbound
@@ -314,7 +320,7 @@ def corpus_cases(kind):
 
 def run_gate(chk, build, factor):
     quick = chk.tier == "quick"
-    cases = corpus_cases("live") + gen_live(chk, (1500 if quick else 20000) * factor)
+    cases = corpus_cases("live") + gen_live(chk, (1000 if quick else 20000) * factor)
     lines = [live_line(c) for c in cases]
     impl = run_harness(build, "eng_gate", lines, shards=8)
     parsed = [parse_term(x) for x in impl]
@@ -405,12 +411,12 @@ def run_gate(chk, build, factor):
             announced = any(e in ("EvAuthenticated", "EvReady") for e in ev_self)
             if (flags[2] == "true" or listed_self or announced) and not proved:
                 why = "session authenticated / listed / announced to subscribers without the digest of its challenge"
-            if head(msg) == "Malformed" and not ever_ok:
+            if (head(msg) == "Malformed" or msg == ("NAuth", "AEmpty")) and not ever_ok:
                 # the clause is about the handshake: garbage on an already authenticated session is C19's subject
                 garbage = True
             if garbage and (flags[1] == "true" or flags[2] == "true" or listed_self or announced):
-                why = why or ("the session is still alive / authenticated / listed after a frame that does not decode "
-                              "(malformed frames must close the session for good)")
+                why = why or ("the session is still alive / authenticated / listed after a frame that does not decode or an "
+                              "authentication envelope without a known message (malformed frames must close the session for good)")
             if head(msg) == "LHonest":
                 honest.add(msg[1])
                 if not any(head(e) == "EvAuthenticated" and e[1] != "true" for e in s[9]):
@@ -505,7 +511,7 @@ def gen_unit(chk, n):
 
 def run_units(chk, build, factor):
     quick = chk.tier == "quick"
-    cases = corpus_cases("unit") + gen_unit(chk, (1500 if quick else 20000) * factor)
+    cases = corpus_cases("unit") + gen_unit(chk, (1000 if quick else 20000) * factor)
     lines = [f"unit {k} {adv} " + " ; ".join(ops) for k, adv, ops in cases]
     impl = run_harness(build, "eng_gate", lines, shards=8)
     parsed = [parse_term(x) for x in impl]
